@@ -85,7 +85,7 @@ def base_items(ctx: Ctx) -> None:
             continue
         toks = tuple(t for t in (token(e, s, fp) for e in sm.effects if line in e.loops) if t is not None)
         decs.append(Dec(dict(sm.atoms_in(line)), toks, sm))
-    ctx.floor("paths through the item loop of BaseSimfile.serialize", len(decs), 3)
+    ctx.floor("paths through the item loop of BaseSimfile.serialize", len(decs), 1)
     judge(ctx, "R-NULL", fi, "every item is written as one MSD parameter: (key,) exactly for a None value, (key, *value.split(':')) exactly for ATTACKS/DISPLAYBPM, (key, value) otherwise - "
           "built by MSDParameter, followed by whitespace only", decs, [VN, MULTI], lambda a: (_item_forms(k, v, a, VN, MULTI),),
           why="a None value has no text; multi-value keys must come back as the same ':'-joined value; everything else is one escaped component; stray text would break a strict load")
@@ -143,7 +143,7 @@ def ssc_chart_items(ctx: Ctx, judge_skip_only: bool = False) -> None:
         else:
             post = tuple(t for t in (token(e, s, fp) for e in sm.effects[idx + 1:] if not e.loops) if t is not None)
         pre_post.append(Dec(asg, (pre, post), sm))
-    ctx.floor("paths through the item loop of SSCChart.serialize", len(decs), 4)
+    ctx.floor("paths through the item loop of SSCChart.serialize", len(decs), 1)
     atoms_loop = [A, B, K1, K2, VN, MULTI]
     judge(ctx, "R-IDENT", fi, "the notes item (NOTES, or NOTES2 exactly when NOTES is absent and NOTES2 present) is recognised by its key and is the only item skipped in the loop; "
           "every other item is written as in the simfile", decs, atoms_loop, spec_loop, dont_care=[N1, N2],
@@ -181,7 +181,7 @@ def charts_items(ctx: Ctx) -> None:
         n += 1
         toks = tuple(t for t in (token(e, s, fp) for e in sm.effects if line in e.loops) if t is not None)
         outside = tuple(t for t in (token(e, s, fp) for e in sm.effects if not e.loops) if t not in (None, "return"))
-        conds = sorted(k for k, _ in sm.atoms_in(line))
+        conds = sorted(dict(sm.atoms_in(line)))
         good = toks == (f"serialize {x}", "blank") and not conds and not outside
         ctx.expect("R-ORDER", fi, "each chart is written by chart.serialize(file) and followed by a line break; unconditionally, nothing else is written", good, str(toks),
                    f"per element the chart list writes {toks} under {conds or 'no condition'} (outside the loop: {outside}): formatting an element (str / f-string) instead of calling its serialize() "
